@@ -145,7 +145,8 @@ class ExecutionContext(AbstractContext):
                 raise Exception('shell is undefined')
 
             key_hash = self.key.public_key_hash()
-            self.counter = int(self.shell.contracts[key_hash]()['counter'])
+            # operations of this account waiting in the mempool will have consumed their counters
+            self.counter = int(self.shell.contracts[key_hash]()['counter']) + self.get_counter_offset()
 
         self.counter += 1
         return self.counter
